@@ -206,6 +206,10 @@ def frame_at(ff: FuncFacts, expr: ast.expr, at: ast.AST, depth: int = 0) -> Fram
             n = ff.folder.try_fold(expr.args[0], sc, None)
             if isinstance(n, int):
                 return Frame(n, "bytearray", expr, [])
+            if isinstance(expr.args[0], ast.Call):          # bytearray(<frame>) / bytes(<frame>): a copy of that frame
+                return frame_at(ff, expr.args[0], at, depth + 1)
+        if d == "bytes" and len(expr.args) == 1 and isinstance(expr.args[0], ast.Call):
+            return frame_at(ff, expr.args[0], at, depth + 1)
         fmt, first = _struct_of(ff, expr)
         if fmt is not None and d.endswith(".pack"):
             return Frame(_struct.calcsize(fmt), "pack", expr, [], [(fmt, a) for a in expr.args[first:]])
